@@ -7,6 +7,7 @@ independent punctuator table, reserved-word set, white-space set and line
 table.  No model of *classification* of '/' is involved (that is C05).
 """
 
+import itertools
 import unicodedata
 
 from vk.boot import HarnessBroken
@@ -20,13 +21,16 @@ RULE = ('inputs: lexical soups (random sequences of identifiers incl. curated no
         'continuations with each terminator) joined by random ES5 white space and every line-terminator kind '
         '(incl. CR directly followed by LF across token boundaries), plus generated programs and the corpus; every text '
         'also through one of Lexer() / Lexer(with_comments=True) / token() calls (same audit, same non-comment tokens); '
+        'plus every ordered triple of punctuators written without separation and 21 pieces of foreign syntax (hashbang line, HTML comment '
+        'delimiters, decorators, template quotes ...) at the start of the text, of a later line and inside a line x 6 line ends; every token '
+        'is also re-read by the reference scanner at its offset (same class, same extent); '
         'a case = one text that lexes without error; non-trivial = at least 3 tokens and at least one line '
         'terminator or multi-character punctuator.')
 ASSUMPTIONS = ['ES5 white space = TAB VT FF SP NBSP BOM + Unicode Zs; line terminators = LF CR LS PS (CRLF one); '
                'punctuator list of ECMA-262 7.7; synthetic AUTOSEMI tokens are exempt from the substring clause']
 BUDGET_S = {'quick': 60, 'thorough': 600}
 REQUIRED_HITS = ['tokens_checked', 'line_terminator_crossed', 'multi_line_token', 'mode:comments_skipped', 'mode:comments_attached',
-                 'mode:token_calls']
+                 'mode:token_calls', 'punctuator_triple', 'foreign_syntax']
 FLOOR = {'quick': 3000, 'thorough': 40000}
 
 PUNCTUATORS = '''{ } ( ) [ ] . ; , < > <= >= == != === !== + - * % ++ -- << >> >>> & | ^ ! ~ && || ? : = += -= *=
@@ -62,6 +66,34 @@ def longest_punct(text, pos):
     return None
 
 
+_KIND = {'NUMBER': 'num', 'STRING': 'str', 'REGEX': 'regex', 'ID': 'name', 'GETPROP': 'name', 'SETPROP': 'name'}
+
+
+def token_class(text, typ, val, pos, keyword_types):
+    """None, or what is wrong: the token is not what the reference scanner reads at that offset (kind and extent).
+    Where the reference scanner itself gives up (malformed literal, Annex B spelling) there is no verdict."""
+    sc = refjs.Scanner(text)
+    try:
+        if typ in ('LINE_COMMENT', 'BLOCK_COMMENT'):
+            _, _, comments = sc.skip(pos)
+            c = comments[0] if comments else None
+            if c is None or c.start != pos or c.end != pos + len(val) or c.kind != ('line' if typ == 'LINE_COMMENT' else 'block'):
+                return '%s token %r at %d: the text there is %s' % (
+                    typ, val[:40], pos, 'no comment' if c is None or c.start != pos else 'the %s comment %r' % (c.kind, c.text[:40]))
+            return None
+        kind = _KIND.get(typ, 'name' if typ in keyword_types else 'punct')
+        t = sc.scan(pos, regex=(kind == 'regex'))
+    except refjs.RefSyntaxError:
+        return None
+    if t is None or t.start != pos:
+        return '%s token %r at %d: no token starts there' % (typ, val[:40], pos)
+    if t.kind != kind or t.end != pos + len(val):
+        if t.flags:
+            return None
+        return '%s token %r at %d: the text there is the %s token %r' % (typ, val[:40], pos, t.kind, text[t.start:t.end][:40])
+    return None
+
+
 def audit(text, toks, keyword_types, prefix=False):
     """
     toks: list of (type, value, lexpos, lineno, colno).  Returns a list of
@@ -94,6 +126,11 @@ def audit(text, toks, keyword_types, prefix=False):
             out.append(('C06:keyword_type_on_non_keyword', '%s for %r' % (typ, val)))
         if typ in keyword_types and typ.lower() != val:
             out.append(('C06:keyword_type_mismatch', '%s for %r' % (typ, val)))
+        # the class of the token is the class the reference scanner finds for the text at that place, with the
+        # same extent: a comment token is a comment of 7.4, a string a string literal, and so on
+        cls = token_class(text, typ, val, pos, keyword_types)
+        if cls:
+            out.append(('C06:token_class', cls))
         eline, ecol = table.linecol(pos)
         if (line, col) != (eline, ecol):
             out.append(('C06:line_column', '%s %r at offset %d reported at %s:%s, counting line terminators '
@@ -116,6 +153,8 @@ def selfcheck(ctx):
         audit(text, [('IF', 'var', 0, 1, 1)] + good[1:], kw),       # wrong keyword type
         audit(text, [good[0], ('ID', 'x', 4, 1, 5)] + good[2:], kw),
         audit(text, good[:3], kw),                                  # tail dropped
+        audit('a <!--b', [('ID', 'a', 0, 1, 1), ('LINE_COMMENT', '<!--b', 2, 1, 3)], kw),   # a comment token that is none
+        audit('a "b" c', [('ID', 'a', 0, 1, 1), ('STRING', '"b" c', 2, 1, 3)], kw),         # a string token running on
     ]
     if not all(planted) or audit(text, good, kw):
         raise HarnessBroken('C06 checker failed on planted observations: %r / %r' % (planted, audit(text, good, kw)))
@@ -277,8 +316,38 @@ def check(ctx, text, origin, mode=None):
                           k, a[k] if k < len(a) else None, b[k] if k < len(b) else None, mode, text[:300]))
 
 
+FOREIGN = ['#!/usr/bin/env node', '#!', '#', '<!--', '<!-- x', '-->', '--> y', '@decorator', '`tpl`', '#private', '\\', '#! x',
+           '<?php', '%>', '/*@cc_on', '//@ sourceURL=x', '\ufeff#!/bin/sh', '\x00', '"use strict"', '\u200b', '#!\\']
+
+
+def systematic(ctx):
+    """(a) every ordered triple of punctuators written without anything in between (longest match decides, and nothing
+    but the comment openers // and /* turns punctuators into something else); (b) syntax of other languages and tools that a
+    lenient lexer might skip - a hashbang line, HTML comment delimiters, decorators, template quotes - at the start of the
+    text, at the start of a later line and in the middle of a line, each with each kind of line end after it"""
+    P = sorted(PUNCTUATORS)
+    idx = 0
+    for tr in itertools.product(P, repeat=3):
+        idx += 1
+        if idx % ctx.nshards != ctx.shard:
+            continue
+        check(ctx, 'a' + ''.join(tr) + ' b', 'punctuator_triple')
+        ctx.hit('punctuator_triple')
+    for f in FOREIGN:
+        for lt in ['\n', '\r', '\r\n', '\u2028', '\u2029', '']:
+            for shape in ('%s%sx = 1%sy = 2', 'a = 1%s%s%sb = 2%s c', 'a = 1 %s b%sc = 3', ' %s%s\tz', 'x = a%sb%s', 'f(%s)%sg()'):
+                idx += 1
+                if idx % ctx.nshards != ctx.shard:
+                    continue
+                text = shape.replace('%s%s%s', lt + f + lt, 1) if shape.count('%s') == 4 else shape
+                text = text.replace('%s', f, 1).replace('%s', lt)
+                check(ctx, text, 'foreign_syntax')
+                ctx.hit('foreign_syntax')
+
+
 def run(ctx):
     rng = ctx.rng
+    systematic(ctx)
     n = ctx.per_shard(2500, 60000)
     for i in range(n):
         check(ctx, soup(rng), 'soup')
